@@ -268,14 +268,40 @@ def _no_span_mutation():
         pass
 
 
-def drive(ctx, name, strategy, body, max_examples, examples=(), shrink=True):
+REVISIT_EVERY = int(os.environ.get("VERIF_REVISIT", "6"))
+
+
+def drive(ctx, name, strategy, body, max_examples, examples=(), shrink=True, revisit=None):
     """Run body(case) on the explicit examples (plain calls, every seed) and then on
-    max_examples Hypothesis-generated cases with a seed derived from VERIF_SEED."""
+    max_examples Hypothesis-generated cases with a seed derived from VERIF_SEED.
+
+    Every `revisit`-th case is followed by a re-evaluation of the case that ran seven cases
+    earlier in the same process: oracles are pure, so the verdict must be the same; a library
+    that answers differently the second time (a cache poisoned in between, state left behind by
+    another call) is caught here even when each case on its own is handled correctly."""
     import hypothesis
     from hypothesis import HealthCheck, Phase, given, settings
 
+    revisit = REVISIT_EVERY if revisit is None else revisit
+    ring = collections.deque(maxlen=8)
+    count = [0]
+
+    def wrapped(case):
+        body(case)
+        ring.append(case)
+        count[0] += 1
+        if revisit and count[0] % revisit == 0 and len(ring) >= 4:
+            old = ring[0]
+            try:
+                body(old)
+            except Violation as v:
+                raise Violation(v.prop, v.sub, v.kind + ":on_revisit", v.case,
+                                "[only when the case is evaluated again after %d other cases in the same process] %s"
+                                % (len(ring) - 1, v.message), dict(v.key, kind=v.kind + ":on_revisit")) from None
+            ctx.label("revisited_cases")
+
     for ex in examples:
-        body(ex)
+        wrapped(ex)
     if max_examples <= 0:
         return
     _no_span_mutation()
@@ -295,7 +321,7 @@ def drive(ctx, name, strategy, body, max_examples, examples=(), shrink=True):
     )
     @given(strategy)
     def run(case):
-        body(case)
+        wrapped(case)
 
     run()
 
